@@ -318,6 +318,7 @@ class CSSStyleSheet(cssutils.stylesheets.StyleSheet):
         # save for possible reset
         oldCssRules = self.cssRules
         oldNamespaces = self._namespaces
+        oldVariables = self._variables
 
         self.cssRules = cssutils.css.CSSRuleList()
         # simple during parse
@@ -353,7 +354,7 @@ class CSSStyleSheet(cssutils.stylesheets.StyleSheet):
             # reset, the new cssText is rejected as a whole
             self._cssRules = oldCssRules
             self._namespaces = oldNamespaces
-            self._updateVariables()
+            self._variables = oldVariables
             raise
 
         if wellformed:
@@ -369,7 +370,7 @@ class CSSStyleSheet(cssutils.stylesheets.StyleSheet):
             # reset
             self._cssRules = oldCssRules
             self._namespaces = oldNamespaces
-            self._updateVariables()
+            self._variables = oldVariables
             self._cleanNamespaces()
 
     cssText = property(
